@@ -242,7 +242,7 @@ def containment(ctx, pel, rng, base_doc):
     """A failing parser affects only its own section: flip every failing fixture section to behaviour OK and compare the rest."""
     failing = [i for i, s in enumerate(pel.sections) if s.kind in ("UD", "ED") and
                s.m.get("flavor") in ("fx_raise", "fx_none", "fx_importerror", "fx_keyerror", "fx_release_raise",
-                                   "fx_release_none")]
+                                   "fx_release_none", "fx_raise_empty", "fx_raise_multiline")]
     fsrc = [i for i, s in enumerate(pel.sections) if s.kind == "SRC" and src_expected_call(s)[0] and s.m["ascii"][7:8] in "EFAB"]
     if not failing and not fsrc:
         return
